@@ -479,7 +479,19 @@ pub fn run<G: Glue>(
             Step::Resave { slot, to, ty } => {
                 let f = peer(ty)?;
                 let before = deps.storage.get(slot.as_bytes()).map(|b| bb::bytes_text(&b)).unwrap_or(Value::Null);
-                let a = (f.resave_remote)(deps.storage, slot, to)?;
+                let a = match (f.resave_remote)(deps.storage, slot, to) {
+                    Ok(a) => a,
+                    Err(e) => {
+                        // a failed load is an observation too
+                        bb::build(
+                            G::CID,
+                            "remote_resave",
+                            json!({"slot": slot, "to": to, "ty": ty, "loaded": Value::Null, "raw": before, "error": e.to_string()}),
+                            Value::Null,
+                        );
+                        return Err(e.into());
+                    }
+                };
                 bb::build(
                     G::CID,
                     "remote_resave",
